@@ -60,9 +60,9 @@ CLAIMED = {
    ref="DESIGN.md §4 C12",
    note="NOT decided: simplicity, counter-clockwise orientation, no 180-degree jump, span < 180 - geometry of the unprojected values. Cells are concrete (their face-plane vertices are concrete floats), the values of the unprojection are arbitrary within the contracts."),
  "C07": dict(
-   text="PARTIAL (lattice/face-plane level). (L) one-level drift lemma: with the flip state, the parent's last digit and the child's digit as fresh symbols the real _shift_digits/quaternary_to_kj/quaternary_to_flips/kj_to_ij and the real orientation post-transform yield, by solver AllSAT (final unsat = complete), the finite set of displacements anchor(child)-2*anchor(parent) with both cells' (k,flips): 64 per orientation, max planar centre-distance ratio 0.649; (S) index reversal commutes with taking the parent for every level up to 28 and all indices; (V) the displacement set enumerated from the real s_to_anchor over ALL indices of levels 2..4 (thorough ..6) is contained in the lemma's set. Geometric series: any descendant's centre is within 1.30*sqrt(planar area) of its ancestor's centre.",
+   text="PARTIAL (lattice/face-plane level). (L) one-level drift lemma: with the flip state, the parent's last digit and the child's digit as fresh symbols the real _shift_digits/quaternary_to_kj/quaternary_to_flips/kj_to_ij and the real orientation post-transform yield, by solver AllSAT (final unsat = complete), the finite set of displacements anchor(child)-2*anchor(parent) with both cells' (k,flips): 64 per orientation, max planar centre-distance ratio 0.649; the same lemma for depths 2 and 3 (finite local state enumerated completely, ancestor offset and level symbolic) gives the exact maxima 0.923 and 1.076; (S) index reversal commutes with taking the parent for every level up to 28 and all indices; (V) the displacement set enumerated from the real s_to_anchor over ALL indices of levels 2..4 (thorough ..6) is contained in the lemma's set. Geometric tail: any descendant's centre is within R3 + R1/4 <= 1.245*sqrt(planar area) of its ancestor's centre.",
    ref="DESIGN.md §4 C07",
-   note="NOT decided: the step to the sphere (great-circle distance <= 1.5*sqrt(cell_area)) needs the projection's length distortion <= 1.15; the premise that a child's upper-level processing equals its parent's is argued from the loop structure and validated on all indices of small levels only; the point corollary depends on C01. Witnesses above the planar limit are candidates replayed on the real API (cell_to_lonlat + haversine)."),
+   note="NOT decided: the step to the sphere (great-circle distance <= 1.5*sqrt(cell_area)) needs the projection's length distortion <= 1.5/1.245 = 1.20; the premise that a child's upper-level processing equals its parent's is argued from the loop structure and validated on all indices of small levels only; the point corollary depends on C01. Witnesses above the planar limit are candidates replayed on the real API (cell_to_lonlat + haversine)."),
 }
 NA = {}
 for p in props:
